@@ -258,6 +258,9 @@ fn new_case_dir() -> PathBuf {
 }
 
 pub fn force_remove(p: &Path) {
+    if std::fs::symlink_metadata(p).is_err() {
+        return;
+    }
     if let Err(_e) = std::fs::remove_dir_all(p) {
         // Directories with mode 0 are not a problem for root; but be defensive.
         let _ = Command::new("chmod").arg("-R").arg("u+rwx").arg(p).status();
@@ -270,6 +273,14 @@ fn cleanup_case_dir(d: &Path) {
     if let Some(top) = d.parent().and_then(|p| p.parent()) {
         force_remove(top);
     }
+}
+
+static HEARTBEAT: Mutex<Option<Instant>> = Mutex::new(None);
+
+/// Called by enumerating checks between inner evaluations: the per-case time limit then
+/// applies to one inner evaluation, not to the whole enumeration.
+pub fn heartbeat() {
+    *HEARTBEAT.lock().unwrap() = Some(Instant::now());
 }
 
 /// State shared with the watchdog thread.
@@ -648,6 +659,10 @@ fn spawn_watchdog(id: &'static str, seed: u64, watch: Arc<Watch>) {
             }
             let cur = watch.current.lock().unwrap().clone();
             if let Some((start, case_json)) = cur {
+                let start = match *HEARTBEAT.lock().unwrap() {
+                    Some(hb) if hb > start => hb,
+                    _ => start,
+                };
                 if start.elapsed() > limit {
                     let case: Value = serde_json::from_str(&case_json).unwrap_or(Value::Null);
                     let f = Failure::new(
